@@ -253,12 +253,12 @@ pub fn run(ctx: &Ctx) {
     ctx.assume("Where the documentation fixes a minimum width but not the interplay of sign and padding, the reference pads on the left to the width with the sign counted inside the width, except for %Y/%G whose mandatory '+'/'-' outside 0..=9999 is not counted (documented-plus-observed rule, DESIGN.md C12)");
     ctx.assume("%Z is asserted only for whole-minute offsets (documented as identical to %:z); %y/%g only for years >= 0; %#z is parse-only and not asserted");
     // (i) the whole documented table x 4 modifiers x the fixed value list
-    let vals = table_values(ctx.seed, ctx.n(1500, 200_000) as usize);
+    let vals = table_values(ctx.seed, ctx.n(4000, 200_000) as usize);
     let vals = &vals;
     ctx.run_enum_opt(&Format, SPECS.len() * MODS.len(), |k| {
         let fmt = format!("%{}{}", MODS[k % MODS.len()], SPECS[k / MODS.len()]);
         vals.iter().map(move |v| FCase { fmt: fmt.clone(), v: *v })
     }, false, false);
     // (ii)+(iii) must-fail shapes and random format strings
-    ctx.run_prop(&Format, ctx.n(1_500_000, 50_000_000));
+    ctx.run_prop(&Format, ctx.n(5_000_000, 50_000_000));
 }
